@@ -64,7 +64,7 @@ BENCH = ("corr", "anti", "indep", "same", "scaled", "lowvar", "flat")
 
 
 def plan(tier, seed):
-    n = 330 if tier == "quick" else 9000
+    n = 1200 if tier == "quick" else 9000
     return [{"shard": i, "cases": n} for i in range(NSHARDS)]
 
 
